@@ -798,6 +798,15 @@ func (x *pexec) doParse(op *Op, wrapped bool) string {
 		x.checkOptimal(blk, wBefore, n)
 	}
 	x.w = wBefore + n
+	// the block is the caller's: it may do with its memory what it likes
+	// while the parser goes on (a parser that kept a reference to it, or
+	// handed out its own buffer, works on overwritten data from here on)
+	for i := range blk.Literals {
+		blk.Literals[i] ^= 0x5a
+	}
+	for i := range blk.Sequences {
+		blk.Sequences[i] = lz.Seq{LitLen: 0xfffffff1, MatchLen: 0xfffffff2, Offset: 0xfffffff3, Aux: 0xfffffff4}
+	}
 	if op.Re {
 		x.blk = *blk
 	}
